@@ -47,7 +47,7 @@ func (b *Writer) Seek(offset int64, whence int) (int64, error) {
 func (b *Writer) Close() error {
 	err := b.Flush()
 	if err != nil {
-		return err
+		return errors.Join(err, b.wr.Close())
 	}
 	return b.wr.Close()
 }
